@@ -179,6 +179,7 @@ class MemConn(secsgem.common.Connection):
         self.replies = {}      # system -> (stream, function, body)
         self.primaries = []    # (stream, function, body) sent by the equipment
         self.control = []      # (s_type, system)
+        self.mute = set()      # (stream, function) primaries the host does NOT answer (fault input)
 
     def enable(self):
         pass
@@ -211,7 +212,7 @@ class MemConn(secsgem.common.Connection):
         for stream, fn, system in out:
             body = {(1, 13): b"\x01\x02\x21\x01\x00\x01\x00", (6, 11): b"\x21\x01\x00", (5, 1): b"\x21\x01\x00",
                     (1, 1): b"\x01\x00"}.get((stream, fn))
-            if body is not None:
+            if body is not None and (stream, fn) not in self.mute:
                 self.feed_raw(stream, fn + 1, False, system, body)
         return True
 
